@@ -1420,6 +1420,11 @@ func (s sequence) Value() reflect.Value {
 	case n == 0:
 		return undefined
 	case n == 1 && !s.keepSingletons:
+		if s.values[0] == nil {
+			// A JSON null from the input is a value. (The zero
+			// reflect.Value means "no value".)
+			return reflect.ValueOf(null)
+		}
 		return reflect.ValueOf(s.values[0])
 	default:
 		return reflect.ValueOf(s.values)
